@@ -123,3 +123,46 @@ Definition law_ndict (c : ndcase) : list Z :=
   let '(vk, (imn, imx), init, h) := c in
   start_ok (ndict_ok kdom_str (dom_of vk) imn imx init)
   ++ law_ndict_hist kdom_str kdom_str (dom_of vk) (acc_of vk) imn imx 0 init h.
+
+(* ---------- default values: the first read of a never-assigned trait ---------- *)
+(* The declared default is turned into the container object on first access (TraitListObject /
+   TraitSetObject / TraitDictObject constructors, not List.validate): it must either be refused
+   (TraitError, nothing readable) or satisfy the invariant.  Observation: the read's outcome and,
+   if it succeeded, the contents. *)
+Inductive dfl :=
+| DfList (vk : vkind) (mn : Z) (mx : option Z) (d : list Z) (ob : res (list Z))
+| DfSet (vk : vkind) (d : list Z) (ob : res (list Z))
+| DfDict (kk vk : vkind) (ps : amap) (ob : res amap).
+
+Definition res_diff {A} (eqb : A -> A -> bool) (m i : res A) : list Z :=
+  match m, i with
+  | Ok a, Ok b => chk 2 (eqb a b)
+  | Raise x, Raise y => chk 1 (exn_eqb x y)
+  | _, _ => [1]
+  end.
+
+(* the model: materialising a default is validating it like an assigned value *)
+Definition default_list (vk : vkind) (mn : Z) (mx : option Z) (d : list Z) : res (list Z) :=
+  let ob := list_step (vld_of vk) mn mx [] (LAssign true d) in
+  match o_out ob with Ok _ => Ok (o_after ob) | Raise e => Raise e end.
+Definition default_set (vk : vkind) (d : list Z) : res (list Z) :=
+  let ob := set_step (vld_of vk) [] (SAssign true d) in
+  match so_out ob with S.Ok => Ok (so_after ob) | S.Raise _ => Raise TraitError end.
+Definition default_dict (kk vk : vkind) (ps : amap) : res amap :=
+  let ob := dict_step (vld_of kk) (vld_of vk) [] (DAssign true ps) in
+  match do_out ob with D.Ok => Ok (do_after ob) | D.Raise _ => Raise TraitError end.
+
+Definition corr_default (c : dfl) : list Z :=
+  match c with
+  | DfList vk mn mx d ob => res_diff zlist_eqb (default_list vk mn mx d) ob
+  | DfSet vk d ob => res_diff seteq (default_set vk d) ob
+  | DfDict kk vk ps ob => res_diff mapeq (default_dict kk vk ps) ob
+  end.
+(* clause 6: a readable default value violates the invariant *)
+Definition law_default (c : dfl) : list Z :=
+  match c with
+  | DfList vk mn mx _ (Ok l) => start_ok (list_ok (dom_of vk) mn mx l)
+  | DfSet vk _ (Ok s) => start_ok (forallb (dom_of vk) s)
+  | DfDict kk vk _ (Ok m) => start_ok (dict_ok (dom_of kk) (dom_of vk) m)
+  | _ => []
+  end.
